@@ -73,6 +73,29 @@ fn install_hook() {
                 }
                 None => loc,
             }
+        } else if loc.starts_with("dora-parser/src/parser.rs") {
+            // the parser's guards (`expect`, `assert`, the comma-list progress assertion) are shared by every grammar
+            // routine: name the grammar routine that ran into the guard, so that a NEW way to trip an old guard is a
+            // new finding
+            let bt = std::backtrace::Backtrace::force_capture().to_string();
+            let helpers = ["expect", "assert", "parse_comma_list_items", "parse_comma_list", "parse_list", "eat", "advance", "error", "report_error"];
+            let frames: Vec<String> = bt
+                .lines()
+                .filter_map(|l| {
+                    let t = l.trim();
+                    let (n, sym) = t.split_once(": ")?;
+                    n.parse::<u32>().ok()?;
+                    Some(sym.to_string())
+                })
+                .filter_map(|s| s.strip_prefix("dora_parser::parser::Parser::").map(|x| x.to_string()))
+                .map(|s| s.split("::").next().unwrap_or("").to_string())
+                .filter(|s| !helpers.contains(&s.as_str()) && !s.is_empty())
+                .take(1)
+                .collect();
+            match frames.first() {
+                Some(c) => format!("{}@{}", loc, c),
+                None => loc,
+            }
         } else {
             loc
         };
